@@ -317,7 +317,13 @@ def run(ctx):
         if sites is None:
             ctx.unanalysable("C06.forward", g["def"], err)
             continue
-        rec = [(s_, w) for s_, w in sites if "read" in w and "shape" in w]
+        # the record reader, by role: the fallible call to a local function whose success value is not `()`
+        # (the seeks return Result<(), _> / Result<u64, _> from std)
+        rec = []
+        for s_, w in sites:
+            ty = discipline.site_dest_ty(F, s_) or ""
+            if util.local_fn(F, w) is not None and ty.startswith("std::result::Result<") and not ty.startswith("std::result::Result<(),"):
+                rec.append((s_, w))
         ok = bool(rec)
         why = []
         for s_, w in rec:
